@@ -269,9 +269,11 @@ func canonEM(k int, prefix, digest []byte) []byte {
 }
 
 func genAttest(g *hx.Gen, out *hx.Out) {
-	sizes := []int{1024, 2048}
+	// modulus sizes, including ones that are not a multiple of 8 bits (the encoded message is
+	// ceil(bits/8) bytes long)
+	sizes := []int{1024, 1031, 2048}
 	if os.Getenv("VERIF_TIER") == "thorough" {
-		sizes = []int{1024, 1536, 2048, 3072, 4096}
+		sizes = []int{1024, 1025, 1031, 1033, 1536, 2047, 2048, 2049, 3072, 4096}
 	}
 	n := 0
 	emit := func(kind string, algo int, tbs, sig []byte, keyS string) {
@@ -380,6 +382,16 @@ func genAttest(g *hx.Gen, out *hx.Out) {
 		emit("root", 4, tbs, append([]byte{0}, good...), keyS)
 		emit("root", 4, tbs, g.Bytes(k), keyS)
 		emit("root", 4, tbs, g.Bytes(k+5), keyS)
+		// the genuine signature followed by extra bytes, and the genuine value plus the modulus
+		// (same residue; longer or not smaller than the modulus)
+		emit("root", 4, tbs, append(append([]byte{}, good...), 0), keyS)
+		emit("root", 4, tbs, append(append([]byte{}, good...), g.Bytes(1+g.Intn(4))...), keyS)
+		emit("root", 4, tbs, append(append([]byte{}, good...), good...), keyS)
+		sn := new(big.Int).Add(new(big.Int).SetBytes(good), key.N)
+		emit("root", 4, tbs, sn.Bytes(), keyS)
+		if len(sn.Bytes()) <= k {
+			emit("root", 4, tbs, sn.FillBytes(make([]byte, k)), keyS)
+		}
 	}
 	// non-RSA device keys
 	for _, ks := range []string{"ecdsa", "ed25519"} {
